@@ -1,10 +1,10 @@
 CONSTANTS
-  Fix = "vars"
+  Fix = "none"
   N = 3
-  Shared = {"x"}
+  Shared = {"x","y"}
   Locals = {}
-  Pairs <- P12
-  Tcp = TRUE
+  Pairs <- P0
+  Tcp = FALSE
   MaxAtt = 6
   MaxPer = 3
   MaxOps = 2
@@ -12,7 +12,7 @@ CONSTANTS
   Aborts = TRUE
   SendLast = FALSE
   Record = TRUE
-  OnlyBad = FALSE
+  OnlyBad = TRUE
 INIT Init
 NEXT Next
 CHECK_DEADLOCK FALSE
